@@ -418,6 +418,9 @@ func runUntrusted(c *vh.Check, u *untrusted) {
 // allocate whatever a length prefix claims; worker: runs its unit sequentially.
 func RunC08(c *vh.Check, cases []bk.Case) {
 	want := map[string]bool{"cubic-1pub": true, "two-pub": true, "commit-two": true, "zero-pub": true, "commit-public": true}
+	if c.Quick() {
+		want = map[string]bool{"cubic-1pub": true, "commit-two": true, "zero-pub": true}
+	}
 	var sel []bk.Case
 	for _, cs := range cases {
 		if want[cs.Name] {
